@@ -23,7 +23,8 @@ EVID = os.path.join(VERIF, 'evidence')
 
 
 class Scenario:
-    def __init__(self, name, fn, params=None, max_paths=20000, weight=1.0, setup=None, twin=False, bounds=None):
+    def __init__(self, name, fn, params=None, max_paths=20000, weight=1.0, setup=None, twin=False, bounds=None,
+                 shards=1):
         self.name = name
         self.fn = fn
         self.params = params or {}
@@ -32,6 +33,7 @@ class Scenario:
         self.setup = setup or {}      # tree_leaves, par_other, par_sharedmem, cpu_count, nondet_set
         self.twin = twin              # reachability twin: its final obligation is False and must be violated
         self.bounds = bounds or {}
+        self.shards = shards          # the path tree is partitioned over this many worker tasks
 
 
 def load_prop(pid):
@@ -119,7 +121,8 @@ def _jsonable(x):
 
 
 def run_scenario(task):
-    pid, sname, tier, seed, budget_s = task
+    pid, sname, tier, seed, budget_s = task[:5]
+    shard = task[5] if len(task) > 5 else None
     t0 = time.time()
     res = dict(scenario=sname, paths=0, transitions=0, checks=0, solver_time=0.0, obligations=0, discharged=0,
                discharged_batch=0, discharged_defs=0, candidates=0, violations=[], known=[], inconclusive=[],
@@ -136,6 +139,7 @@ def run_scenario(task):
         res['twin'] = scn.twin
         res['bounds'] = scn.bounds
         rnd = random.Random((seed, sname).__repr__())
+        res['shard'] = shard
         known = load_known()
         _apply_setup(scn.setup)
         state = {'stop': False, 'nviol': 0}
@@ -261,7 +265,7 @@ def run_scenario(task):
                                 return True
                             rec['note'] = 'deviates from the listed finding %s as well' % kf
                         state['nviol'] += 1
-                        rec['path'] = _save_replay(pid, sname, o.label, rec, state['nviol'])
+                        rec['path'] = _save_replay(pid, sname, o.label, rec, state['nviol'] + 100 * (shard[0] if shard else 0))
                         res['violations'].append(dict(label=o.label, level=level, replay=rec['path'],
                                                       crash=rec.get('crash')))
                         return True
@@ -396,7 +400,7 @@ def run_scenario(task):
 
         deadline = t0 + budget_s if budget_s else None
         try:
-            agg = core.explore(wrapped, max_paths=scn.max_paths, on_path=on_path, deadline=deadline)
+            agg = core.explore(wrapped, max_paths=scn.max_paths, on_path=on_path, deadline=deadline, shard=shard)
             res['complete'] = agg['complete']
         except core.Budget as e:
             agg = None
@@ -500,7 +504,12 @@ def main(argv=None):
     if a.only:
         scns = [s for s in scns if fnmatch.fnmatch(s.name, a.only)]
     order = sorted(scns, key=lambda s: -s.weight)
-    tasks = [(pid, s.name, a.tier, seed, a.budget) for s in order]
+    tasks = []
+    for s in order:
+        if s.shards > 1 and not s.twin:
+            tasks.extend((pid, s.name, a.tier, seed, a.budget, (j, s.shards)) for j in range(s.shards))
+        else:
+            tasks.append((pid, s.name, a.tier, seed, a.budget))
     results = []
     if a.serial or len(tasks) == 1:
         for t in tasks:
@@ -516,7 +525,35 @@ def main(argv=None):
     return finish(pid, a, seed, prop, results, time.time() - t0)
 
 
+def _merge_shards(results):
+    by = {}
+    order = []
+    for r in results:
+        k = r['scenario']
+        if k not in by:
+            by[k] = r
+            order.append(k)
+            r['shards'] = 1
+            continue
+        m = by[k]
+        m['shards'] += 1
+        for f in ('paths', 'transitions', 'checks', 'solver_time', 'obligations', 'discharged', 'discharged_batch',
+                  'discharged_defs', 'candidates', 'validated', 'tv_skipped', 'cache_hits', 'unknown_feas', 'concretized',
+                  'aborted'):
+            m[f] += r[f]
+        for f in ('violations', 'known', 'inconclusive', 'tv_mismatch', 'samples'):
+            m[f] = m[f] + r[f]
+        m['functions'] = sorted(set(m['functions']) | set(r['functions']))
+        m['complete'] = m['complete'] and r['complete']
+        m['error'] = m['error'] or r['error']
+        m['wall'] = max(m['wall'], r['wall'])
+        for lk, lv in r['labels'].items():
+            m['labels'][lk] = m['labels'].get(lk, 0) + lv
+    return [by[k] for k in order]
+
+
 def finish(pid, a, seed, prop, results, wall):
+    results = _merge_shards(results)
     known = load_known()
     violations = []
     inconclusive = []
